@@ -114,7 +114,7 @@ pub const RAW_NAMES: &[(&str, &str)] = &[
 pub const SVG_NAMES: &[&str] = &["g", "path", "circle", "rect", "defs", "use", "text", "tspan", "linearGradient", "a"];
 pub const MATH_NAMES: &[&str] = &["mrow", "mfrac", "msup", "msqrt", "mstyle", "semantics"];
 pub const ATTR_NAMES: &[&str] = &["id", "class", "href", "title", "data-x", "x", "y", "ABC", "Class", "ID", "rel", "name"];
-pub const ATTR_VALUES: &[&str] = &["a", "b", "a b", "ab", "AB", "", "a-b", "x y z", "abc", "b a", "-", "a-", "é", "1"];
+pub const ATTR_VALUES: &[&str] = &["a", "b", "a b", "ab", "AB", "", "a-b", "x y z", "abc", "b a", "-", "a-", "é", "1", "\u{feff}a", "\u{fe}\u{ff}b"];
 const ODD_ATTR_NAMES: &[&str] = &["a\"b", "a'b", "a<b", "=x", "é", "x:y", "a_b", "1", "\"", "日"];
 const ODD_UNQUOTED: &[&str] = &["c/", "a=b", "a'b", "a\"b", "a<b", "`", "é", "/", "x/y", "&amp;", "a&b"];
 const ODD_QUOTED: &[&str] = &["a>b", " a ", "/>", "a=b", "x\ny", "<b>", "&quot;", "a\tb", "é😀"];
@@ -192,7 +192,7 @@ impl<'a, 't> Gen<'a, 't> {
             2 => "<div>".to_string(),
             3 => "a-b".to_string(),
             4 => "a -- b".to_string(),
-            5 => "</script>".to_string(),
+            5 => if self.t.chance(1, 2) { "</script>".to_string() } else { "\u{feff}bom".to_string() },
             6 => self.text_str(false).replace("--", "- -").replace('>', ""),
             _ => "x".to_string(),
         };
@@ -433,11 +433,16 @@ impl<'a, 't> Gen<'a, 't> {
         let start = self.pos();
         self.push("<![CDATA[");
         self.d.toks.push(Tok { kind: TK::CdataMarker, start, end: self.pos(), name: String::new(), ns, text_type: "", name_end: 0, island: self.island_depth > 0 });
-        let body = match self.t.below(5) {
+        let body = match self.t.below(9) {
             0 => String::new(),
             1 => "<b>x</b>".to_string(),
             2 => "a ] b ]] c".to_string(),
             3 => "</svg>".to_string(),
+            // runs of ']' right before the closing "]]>" (odd and even)
+            4 => "a[b[0]".to_string(),
+            5 => "]".to_string(),
+            6 => "x]]".to_string(),
+            7 => "]]]".to_string(),
             _ => self.text_str(false).replace("]]>", ""),
         };
         if !body.is_empty() {
